@@ -824,3 +824,64 @@ def build_columns(case):
                        ident_fn=lambda r_, ch, num, chain=chain, number=number: (chain, number))
         residues += list(part.residues)
     return Structure3D(residues)
+
+
+# ---------------------------------------------------------------------------
+# two-contact base-ribose / base-phosphate placements (the 3+5 -> 4 and 7+9 -> 8 merges)
+
+TWO_CONTACT_DONORS = {"G": ("N2", "N1"), "C": ("N4", "C5"), "U": ("N3", "C5")}
+
+
+def build_two_contact(case):
+    """two residues of a corpus file: the donor (a complete G, C or U) where it is, the acceptor moved rigidly so that two
+    of its oxygens (`oxygens`: O2'/O4' for base-ribose, OP1/OP2 for base-phosphate) come `dist` A out from the two donor
+    atoms of the merging classes, turned by `phi` about the line through the two oxygens, the outward direction tilted by `lift` towards the
+    base normal; `swap` exchanges which oxygen faces which donor, `order` which residue is listed first. Returns the
+    Structure3D (or None when the file lacks such residues); the reference model decides afterwards what the placement is."""
+    from rnapolis.tertiary import Structure3D
+
+    s3 = corpus.structure(case["file"])
+    donors = [ri for ri, r in enumerate(s3.residues) if r.one_letter_name == case["letter"]
+              and all(r.find_atom(n) is not None for n in geomref.R_BASE_ATOMS[case["letter"]])]
+    o1n, o2n = case["oxygens"]
+    accs = [ri for ri, r in enumerate(s3.residues) if r.find_atom(o1n) is not None and r.find_atom(o2n) is not None and r.find_atom("C1'") is not None]
+    if not donors or not accs:
+        return None
+    di = donors[case["donor"] % len(donors)]
+    ai = accs[case["acceptor"] % len(accs)]
+    if ai == di:
+        ai = accs[(case["acceptor"] + 1) % len(accs)]
+        if ai == di:
+            return None
+    D_, A_ = s3.residues[di], s3.residues[ai]
+    P = lambda r, n: np.array([r.find_atom(n).x, r.find_atom(n).y, r.find_atom(n).z])
+    base = np.array([P(D_, n) for n in geomref.R_BASE_ATOMS[case["letter"]]])
+    c = base.mean(axis=0)
+    normal = np.linalg.svd(base - c)[2][2]
+    dn1, dn2 = TWO_CONTACT_DONORS[case["letter"]]
+    t = []
+    for dn in (dn1, dn2):
+        x = P(D_, dn)
+        out = x - c
+        out = out - np.dot(out, normal) * normal
+        out /= np.linalg.norm(out)
+        d_ = out + case["lift"] * normal
+        t.append(x + case["dist"] * d_ / np.linalg.norm(d_))
+    s1, s2 = (P(A_, o1n), P(A_, o2n)) if not case["swap"] else (P(A_, o2n), P(A_, o1n))
+    sep = np.linalg.norm(s2 - s1)
+    mid, u = (t[0] + t[1]) / 2, (t[1] - t[0]) / np.linalg.norm(t[1] - t[0])
+    t1, t2 = mid - u * sep / 2, mid + u * sep / 2
+    # rotation taking (s2 - s1) onto (t2 - t1), then a turn by phi about that line
+    a, b = (s2 - s1) / sep, u
+    cth = float(np.dot(a, b))
+    if cth < -0.999999:
+        R0 = _rot_about(_perp(a), 180.0)
+    else:
+        x = np.cross(a, b)
+        K = np.array([[0, -x[2], x[1]], [x[2], 0, -x[0]], [-x[1], x[0], 0]])
+        R0 = np.eye(3) + K + K @ K / (1 + cth)
+    R = _rot_about(b, case["phi"]) @ R0
+    moved = rebuild(s3, keep={ai}, point_fn=lambda xyz, ri, k: R @ (xyz - s1) + t1, chain_map={A_.chain: "Y"})
+    fixed = rebuild(s3, keep={di}, chain_map={D_.chain: "X"})
+    parts = list(fixed.residues) + list(moved.residues) if case["order"] == "donor-first" else list(moved.residues) + list(fixed.residues)
+    return Structure3D(parts)
